@@ -22,7 +22,7 @@ RULE = (
 )
 ASSUMPTIONS = [
     "quadrature value trusted only with its two-resolution + larger-domain certificate (1e-10); uncertified cases are excluded and counted",
-    "kinked links (step, ReLU) with Dx=2 and Dk=2 have two non-parallel kink lines: only part (i) is checked there (counted as bound_not_checked)",
+    "kinked links (step, ReLU) with Dx=2 and Dk=2 (two non-parallel kink lines) are integrated in the plane of the two link arguments h=(h1,h2) with breakpoints at h_k=0, the expectation over x given h being closed form",
     "real-valued parameters on the finite catalogue + VERIF_SEED-indexed generic reals only; offsets non-zero; weight scale <= 1",
     "known finding F9 (Da>Dy): incoherent precision/log-det, step bound not exact, bounds not tight -- a bound ABOVE the true value is never covered by it",
 ]
@@ -106,9 +106,52 @@ def nodes(mu, Sig, W, link, n, zmax):
     return mu + Z @ (L @ Q).T, Wt
 
 
+def true_value_hspace(link, M, b, A, W, mu, Sig, y):
+    """Kinked links with two noise units and Dx>=2: integrate over h=(h1,h2) ~ N(m,S_h) on a tensor grid with
+    breakpoints at h_k=0; x | h is Gaussian (A_h h + c, C) and ln N(y; Mx+b, Sigma(h)) is quadratic in x, so the inner
+    expectation is closed form."""
+    Dx, Dk, Dy = len(mu), len(W), len(y)
+    Wm, w0 = W[:, 1:], W[:, 0]
+    m = Wm @ mu + w0
+    Sh = Wm @ Sig @ Wm.T
+    if np.linalg.eigvalsh(Sh)[0] < 1e-10:
+        return None, "not_applicable"
+    G = Sig @ Wm.T @ np.linalg.inv(Sh)  # x | h = mu + G (h - m), cov C
+    C = Sig - G @ Sh @ G.T
+    Ak = A[:, :Dk]
+    Shi = np.linalg.inv(Sh)
+    ldh = np.linalg.slogdet(2 * np.pi * Sh)[1]
+    sd = np.sqrt(np.diag(Sh))
+    vals = []
+    for n, zmax in ((8, 8.5), (12, 8.5), (8, 10.0)):
+        axes = []
+        for k in range(2):
+            br = list(m[k] + sd[k] * np.arange(-zmax, zmax + 1e-9, 0.3))
+            if br[0] < 0 < br[-1]:
+                br.append(0.0)
+            axes.append(rm.gauss_legendre_piecewise(sorted(set(br)), n))
+        (h1, w1), (h2, w2) = axes
+        H = np.stack([np.repeat(h1, len(h2)), np.tile(h2, len(h1))], axis=1)
+        Wt = np.repeat(w1, len(h2)) * np.tile(w2, len(h1))
+        dh = H - m
+        dens = np.exp(-0.5 * np.einsum("pi,ij,pj->p", dh, Shi, dh) - 0.5 * ldh)
+        D = link_fn(link, H)
+        S = A @ A.T + np.einsum("ik,pk,jk->pij", Ak, D, Ak)
+        Si = np.linalg.inv(S)
+        xm = mu + dh @ G.T
+        d = y - (xm @ M.T + b)
+        quad = np.einsum("pi,pij,pj->p", d, Si, d) + np.einsum("pij,ji->p", Si, M @ C @ M.T)
+        lp = -0.5 * quad - 0.5 * Dy * rm.LN2PI - 0.5 * np.linalg.slogdet(S)[1]
+        vals.append(float(np.sum(Wt * dens * lp)))
+    cert = abs(vals[0] - vals[1]) <= 1e-10 * max(1.0, abs(vals[1])) and abs(vals[0] - vals[2]) <= 1e-10 * max(1.0, abs(vals[1]))
+    return vals[1], ("ok" if cert else "uncertified")
+
+
 def true_value(link, M, b, A, W, mu, Sig, y):
     """E_{N(mu,Sig)}[ln N(y; Mx+b, AA' + A_k diag(link(Wx+w0)) A_k')] with certificate."""
     Dx, Dk, Dy = len(mu), len(W), len(y)
+    if link in ("Heaviside", "ReLU") and Dx >= 2 and Dk == 2:
+        return true_value_hspace(link, M, b, A, W, mu, Sig, y)
     smax = 0.0
     if link in ("Exp", "CoshM1"):
         L = np.linalg.cholesky(Sig)
